@@ -52,6 +52,7 @@ func VerifUInitialDatagram(s handshake.LongHeaderSealer, header *wire.ExtendedHe
 		packetPacker: &packetPacker{pnManager: verifPNManager{pn: header.PacketNumber}},
 		uSpec:        spec,
 	}
+	verifDirtyPacketBuffers()
 	buffer := getPacketBuffer()
 	defer buffer.Release()
 	_, err := p.appendInitialPacketPayload(buffer, header, payload{}, append([]byte{}, framePayload...), 0, protocol.EncryptionInitial, s, v)
@@ -59,4 +60,20 @@ func VerifUInitialDatagram(s handshake.LongHeaderSealer, header *wire.ExtendedHe
 		return nil, err
 	}
 	return append([]byte{}, buffer.Data...), nil
+}
+
+// verifDirtyPacketBuffers: the next packet buffers taken from the pool by this goroutine are full of 0xa5.
+func verifDirtyPacketBuffers() {
+	bufs := make([]*packetBuffer, 0, 3)
+	for i := 0; i < 3; i++ {
+		b := getPacketBuffer()
+		d := b.Data[:cap(b.Data)]
+		for j := range d {
+			d[j] = 0xa5
+		}
+		bufs = append(bufs, b)
+	}
+	for _, b := range bufs {
+		b.Release()
+	}
 }
